@@ -162,7 +162,13 @@ class KeyHistory(object):
             clock.set(c['created_us'])
             spec = {'alg': c['alg'], 'uids': [c['uid']], 'usage': c.get('usage', 'CS'), 'subkeys': [], 'created_us': c['created_us'],
                     'created_tz': c.get('created_tz')}
-            k = world.build_key(spec, name)
+            try:
+                k = world.build_key(spec, name)
+            except (OverflowError, ValueError) as e:
+                # a creation time PGPy cannot represent (e.g. before the epoch once spelled in another zone)
+                ctx.probe('key_creation_refused')
+                ctx.event('build', name, 'refused', type(e).__name__)
+                continue
             hk = self.hooks.get('on_new_component')
             if hk:
                 hk(self, name, k)
